@@ -399,6 +399,19 @@ func (envs *Manager) CreateEnvironment(workflowPath string, userVars map[string]
 		WithField("level", infologger.IL_Devel).
 		Debug("envman write lock")
 	envs.mu.Lock()
+	// the detectors may have been taken by an environment registered since the query at the top of this function:
+	// check again under the lock that also guards the registration
+	for _, otherEnv := range envs.m {
+		if otherEnv.workflow == nil {
+			continue
+		}
+		for det := range otherEnv.GetActiveDetectors() {
+			if _, contains := neededDetectors[det]; contains {
+				envs.mu.Unlock()
+				return env.id, fmt.Errorf("detector %s is already in use", det.String())
+			}
+		}
+	}
 	envs.m[env.id] = env
 	envs.pendingStateChangeCh[env.id] = env.stateChangedCh
 	envs.mu.Unlock()
